@@ -101,6 +101,16 @@ class Script:
                 parts.append("%s=%d" % (k, v))
         self.lines.append(" ".join(parts))
 
+    def set(self, ifc, **attrs):
+        """the platform's view of an existing interface changes (SET): only the given attributes"""
+        parts = ["SET", str(ifc)]
+        for k, v in attrs.items():
+            if isinstance(v, (bytes, bytearray)):
+                parts.append("%s=%s" % (k, v.hex() or "-"))
+            else:
+                parts.append("%s=%d" % (k, v))
+        self.lines.append(" ".join(parts))
+
     def rx(self, ifcs, frame, length=None, fill=0, all_entries=False):
         if isinstance(ifcs, int):
             ifcs = [ifcs]
